@@ -240,7 +240,130 @@ def cev(ev, cfg):
     if ev == "any": return "std::any" if cfg.startswith("mp11") else "boost::any"
     return ev
 
-def emit_cpp(d, cfg, opts=None):
+def cexpr(g, ev):
+    """guard expression as the C++ expression a user of the member-function front-end would write"""
+    if g[0] == "atom": return "%s(e)" % g[1]
+    if g[0] == "not": return "!%s" % (cexpr(g[1], ev) if g[1][0] in ("atom", "not") else "(" + cexpr(g[1], ev) + ")")
+    l, r = g[1], g[2]
+    def par(x, parent):
+        t = cexpr(x, ev)
+        if x[0] == "or" and parent == "and": return "(" + t + ")"
+        return t
+    return "%s %s %s" % (par(l, g[0]), "&&" if g[0] == "and" else "||", par(r, g[0]))
+
+def pexpr(g):
+    """guard expression in the PlantUML front-end syntax (one level of parentheses)"""
+    if g[0] == "atom": return g[1]
+    if g[0] == "not": return "!%s" % (pexpr(g[1]) if g[1][0] in ("atom", "not") else "(" + pexpr(g[1]) + ")")
+    l, r = g[1], g[2]
+    def par(x, parent):
+        t = pexpr(x)
+        if x[0] == "or" and parent == "and": return "(" + t + ")"
+        return t
+    return "%s %s %s" % (par(l, g[0]), "&&" if g[0] == "and" else "||", par(r, g[0]))
+
+def emit_machines_basic(d, cfg, L, sname):
+    """member-function front-end: row / a_row / g_row / _row and the irow family, guards and actions are members of the front-end"""
+    mp11 = cfg.startswith("mp11"); b11 = cfg.startswith("back11")
+    defs = []
+    for mn in d.order:
+        m = d.machines[mn]
+        for sn, st in m["states"].items():
+            if st["kind"] == "sub": continue
+            assert st["kind"] == "simple" and not st["itab"], "basic front-end variant supports simple states without internal tables"
+            L.append("typedef St<%d> %s;" % (d.sid(sn), sname(mn, sn)))
+        L.append("struct M_%s_ : MDef<M_%s_,%d> {" % (mn, mn, d.sid(mn)))
+        L.append("  typedef mpl::vector<%s> initial_state;" % ",".join(sname(mn, s) for s in m["init"]))
+        rows = []; members = {}
+        for k, r in enumerate(m["table"]):
+            ev = r["ev"]
+            gname = aname = None
+            if r["g"] is not None:
+                if r["g"][0] == "atom": gname = r["g"][1]
+                else:
+                    gname = "gx%d" % k
+                    members[(gname, ev)] = "bool M_%s_::%s(%s const& e) { return %s; }" % (mn, gname, ev, cexpr(r["g"], ev))
+                for a in guard_atoms(r["g"]):
+                    members[(a, ev)] = "bool M_%s_::%s(%s const& e) { bool r = RT::G()[%d]; cb(\"g\", \"%s\", e, static_cast<M_%s&>(*this), -4, true, r, -1); return r; }" % (mn, a, ev, int(a[1:]), a, mn)
+            if r["a"]:
+                if len(r["a"]) == 1: aname = r["a"][0]
+                else:
+                    aname = "ax%d" % k
+                    members[(aname, ev)] = "void M_%s_::%s(%s const& e) { %s }" % (mn, aname, ev, " ".join("%s(e);" % a for a in r["a"]))
+                for a in r["a"]:
+                    members[(a, ev)] = "void M_%s_::%s(%s const& e) { cb(\"a\", \"%s\", e, static_cast<M_%s&>(*this), -4, true, true, -1); }" % (mn, a, ev, a, mn)
+            src = sname(mn, r["src"]); tgt = sname(mn, r["tgt"])
+            A = "&M_%s_::%s" % (mn, aname) if aname else None
+            G = "&M_%s_::%s" % (mn, gname) if gname else None
+            if r["int"]:
+                if A and G: rows.append("irow<%s,%s,%s,%s>" % (src, ev, A, G))
+                elif A: rows.append("a_irow<%s,%s,%s>" % (src, ev, A))
+                elif G: rows.append("g_irow<%s,%s,%s>" % (src, ev, G))
+                else: rows.append("_irow<%s,%s>" % (src, ev))
+            else:
+                # alternate between the row and the row2 families (row2: the called object is named explicitly)
+                if A and G: rows.append(("row<%s,%s,%s,%s,%s>" if k % 2 == 0 else "row2<%s,%s,%s,M_{0}_,%s,M_{0}_,%s>".format(mn)) % (src, ev, tgt, A, G))
+                elif A: rows.append(("a_row<%s,%s,%s,%s>" if k % 2 == 0 else "a_row2<%s,%s,%s,M_{0}_,%s>".format(mn)) % (src, ev, tgt, A))
+                elif G: rows.append(("g_row<%s,%s,%s,%s>" if k % 2 == 0 else "g_row2<%s,%s,%s,M_{0}_,%s>".format(mn)) % (src, ev, tgt, G))
+                else: rows.append("_row<%s,%s,%s>" % (src, ev, tgt))
+        for (nm, ev), body in members.items():
+            L.append("  %s %s(%s const& e);" % ("bool" if body.startswith("bool") else "void", nm, ev))
+            defs.append("inline " + body)
+        L.append("  struct transition_table : mpl::vector<\n    %s > {};" % ",\n    ".join(rows))
+        L.append("};")
+        if mp11: L.append("typedef SMx<M_%s_, vrt_cfg> M_%s;" % (mn, mn))
+        elif b11: L.append("typedef msm::back11::state_machine<M_%s_> M_%s;" % (mn, mn))
+        else:
+            L.append("typedef msm::back::state_machine<M_%s_%s> M_%s;" % (mn, ", msm::back::favor_compile_time" if "_fct" in cfg else "", mn))
+            if "_fct" in cfg and mn != d.root: L.append("BOOST_MSM_BACK_GENERATE_PROCESS_EVENT(M_%s)" % mn)
+        L.append("template<> struct vrt::MInfo<M_%s> { static const char* name() { return %s; } };" % (mn, q(mn)))
+    L.extend(defs)
+
+def emit_machines_puml(d, cfg, L, sname):
+    """PlantUML front-end: the transition tables are strings; states / events / actions / guards are found by name"""
+    mp11 = cfg.startswith("mp11"); b11 = cfg.startswith("back11")
+    L.append("namespace boost { namespace msm { namespace front { namespace puml {")
+    for a in sorted(set(x for m in d.machines.values() for r in d.all_rows(m) for x in r["a"] if x != "defer"), key=lambda x: int(x[1:])):
+        L.append('template<> struct Action<by_name("%s")> : vrt::Ac<%d> {};' % (a, int(a[1:])))
+    for g in d.guards:
+        L.append('template<> struct Guard<by_name("%s")> : vrt::Gd<%d> {};' % (g, int(g[1:])))
+    for mn in d.order:
+        for sn, st in d.machines[mn]["states"].items():
+            if st["kind"] == "sub": continue
+            assert st["kind"] == "simple" and not st["itab"]
+            L.append('template<> struct State<by_name("%s")> : msm::front::state<>, vrt::Beh<%d> { using vrt::Beh<%d>::on_entry; using vrt::Beh<%d>::on_exit; };'
+                     % (sn, d.sid(sn), d.sid(sn), d.sid(sn)))
+    L.append("}}}}")
+    L.append("using namespace boost::msm::front::puml;")
+    for mn in d.order:
+        m = d.machines[mn]
+        for sn, st in m["states"].items():
+            if st["kind"] != "sub": L.append('typedef State<by_name("%s")> %s;' % (sn, sname(mn, sn)))
+        lines = ["@startuml %s" % mn, "state %s{" % mn]
+        for k, s0 in enumerate(m["init"]):
+            if k: lines.append("--")
+            lines.append("[*] -> %s" % s0)
+        arrows = ["->", "-->", "--->", "---->"]
+        for k, r in enumerate(m["table"]):
+            ev = ("-" + r["ev"]) if r["int"] else r["ev"]
+            t = "%s %s %s : %s" % (r["src"], arrows[k % 4], r["tgt"], ev)
+            ga = []
+            if r["a"]: ga.append("/ " + ", ".join(r["a"]))
+            if r["g"] is not None: ga.append("[%s]" % pexpr(r["g"]))
+            if k % 3 == 2: ga.reverse()       # the documented grammar allows the guard before or after the actions
+            lines.append((t + "   " + "  ".join(ga)).rstrip())
+        lines += ["}", "@enduml"]
+        L.append("struct M_%s_ : MDef<M_%s_,%d> {" % (mn, mn, d.sid(mn)))
+        L.append('  BOOST_MSM_PUML_DECLARE_TABLE(R"(\n%s\n)")' % "\n".join("    " + x for x in lines))
+        L.append("};")
+        if mp11: L.append("typedef SMx<M_%s_, vrt_cfg> M_%s;" % (mn, mn))
+        elif b11: L.append("typedef msm::back11::state_machine<M_%s_> M_%s;" % (mn, mn))
+        else: L.append("typedef msm::back::state_machine<M_%s_> M_%s;" % (mn, mn))
+        L.append("template<> struct vrt::MInfo<M_%s> { static const char* name() { return %s; } };" % (mn, q(mn)))
+        if mn != d.root:
+            L.append('namespace boost { namespace msm { namespace front { namespace puml { template<> struct State<by_name("%s")> : M_%s {}; }}}}' % (mn, mn))
+
+def emit_cpp(d, cfg, opts=None, fe="functor"):
     opts = opts or {}
     mp11 = cfg.startswith("mp11"); b11 = cfg.startswith("back11"); fct = "_fct" in cfg; fpa = "_fpa" in cfg
     circ = opts.get("circular", False)
@@ -257,7 +380,16 @@ def emit_cpp(d, cfg, opts=None):
     L.append("static const int NEVENTS = %d;" % len(d.evnames))
     L.append("const char* const vrt::SNAME[] = {%s};" % ", ".join(q(s) for s in d.snames))
     # events
+    if fe == "puml":
+        L.append("#include <boost/msm/front/puml/puml.hpp>")
+        L.append("namespace boost { namespace msm { namespace front { namespace puml {")
+        for k, en in enumerate(d.events):
+            L.append('template<> struct Event<by_name("%s")> : vrt::Ev<%d> { Event() {} explicit Event(int x) : vrt::Ev<%d>(x) {} };' % (en, k, k))
+        L.append("}}}}")
+        for en in d.events:
+            L.append('typedef boost::msm::front::puml::Event<boost::msm::front::puml::by_name("%s")> %s;' % (en, en))
     for k, (en, ej) in enumerate(d.events.items()):
+        if fe == "puml": break
         base = ej.get("base", "")
         if "size" in ej:
             kind = {"trivial": 0, "nontrivial": 1, "throwmove": 2, "selfref": 3}[ej.get("kind", "trivial")]
@@ -272,7 +404,9 @@ def emit_cpp(d, cfg, opts=None):
     def fllist(fs): return "mpl::vector<%s>" % ",".join("Fl<%d>" % (d.flags.index(f) + 1) for f in fs)
     def irows(rows): return "mpl::vector<%s>" % ",".join("Internal<%s,%s,%s >" % (cev(r["ev"], cfg), cact(r["a"]), cguard(r["g"])) for r in rows)
     def sname(mn, sn): return "M_%s" % sn if sn in d.machines else "S_%s_%s" % (mn, sn)
-    for mn in d.order:
+    if fe == "basic": emit_machines_basic(d, cfg, L, sname)
+    if fe == "puml": emit_machines_puml(d, cfg, L, sname)
+    for mn in (d.order if fe == "functor" else []):
         m = d.machines[mn]
         # simple states
         for sn, st in m["states"].items():
@@ -369,12 +503,13 @@ def emit_cpp(d, cfg, opts=None):
         ns = "back11" if b11 else "back"
         L.append("template <class P, class S> bool sub_active(P& p) { for (int k = 0; k < P::nr_regions::value; k++) if (p.current_state()[k] == msm::%s::get_state_id<typename P::stt,S>::value) return true; return false; }" % ns)
     # dump / stamp per machine (submachines first)
+    def subT(s2): return 'boost::msm::front::puml::State<boost::msm::front::puml::by_name("%s")>' % s2 if fe == "puml" else "M_%s" % s2
     for mn in d.order:
         m = d.machines[mn]
         subs = [sn for sn in m["states"] if sn in d.machines]
         L.append("static void dump_st_%s(M_%s& f, std::ostream& o) { o << \"\\\"%s\\\":\" << ids_of(f);" % (mn, mn, mn))
         for s in subs:
-            L.append("  if (sub_active<M_%s,M_%s>(f)) { o << \",\"; dump_st_%s(f.template get_state<M_%s&>(), o); }" % (mn, s, s, s))
+            L.append("  if (sub_active<M_%s,%s >(f)) { o << \",\"; dump_st_%s(f.template get_state<%s&>(), o); }" % (mn, subT(s), s, subT(s)))
         L.append("}")
         L.append("static void dump_q_%s(M_%s& f, std::ostream& o) { o << \"\\\"%s\\\":\";" % (mn, mn, mn))
         if mp11:
@@ -383,18 +518,18 @@ def emit_cpp(d, cfg, opts=None):
             dqs = "f.get_deferred_queue().size()" if d.has_defer(m) else "0"
             L.append('  o << "[" << f.get_message_queue_size() << "," << %s << "]";' % dqs)
         for s in subs:
-            L.append("  if (sub_active<M_%s,M_%s>(f)) { o << \",\"; dump_q_%s(f.template get_state<M_%s&>(), o); }" % (mn, s, s, s))
+            L.append("  if (sub_active<M_%s,%s >(f)) { o << \",\"; dump_q_%s(f.template get_state<%s&>(), o); }" % (mn, subT(s), s, subT(s)))
         L.append("}")
         # entry counters of the machine itself and of its simple states (C15/C16), in the order of the states dictionary
         simple = [sn for sn in m["states"] if sn not in d.machines and m["states"][sn]["kind"] in ("simple",)]
         L.append("static void dump_dt_%s(M_%s& f, std::ostream& o) { o << \"\\\"%s\\\":[\" << f.data%s << \"]\";" % (
             mn, mn, mn, "".join(' << "," << f.template get_state<S_%s_%s&>().data' % (mn, sn) for sn in simple)))
         for s2 in subs:
-            L.append("  if (sub_active<M_%s,M_%s>(f)) { o << \",\"; dump_dt_%s(f.template get_state<M_%s&>(), o); }" % (mn, s2, s2, s2))
+            L.append("  if (sub_active<M_%s,%s >(f)) { o << \",\"; dump_dt_%s(f.template get_state<%s&>(), o); }" % (mn, subT(s2), s2, subT(s2)))
         L.append("}")
         L.append("static void stamp_%s(M_%s& f, int i) { f.vinst = i;" % (mn, mn))
         for s in subs:
-            L.append("  stamp_%s(f.template get_state<M_%s&>(), i);" % (s, s))
+            L.append("  stamp_%s(f.template get_state<%s&>(), i);" % (s, subT(s)))
         L.append("}")
     L.append("static void gen_stamp(Top& t, int i) { stamp_%s(t, i); }" % d.root)
     L.append('static void gen_dump(Top& t, std::ostream& o) { o << "\\"st\\":{"; dump_st_%s(t, o); o << "},\\"q\\":{"; dump_q_%s(t, o); o << "},\\"dt\\":{"; dump_dt_%s(t, o); o << "},\\"fl\\":" << flags_of(t); }'
